@@ -148,7 +148,15 @@ fn std_core() -> FunctionMap {
     });
 
     // return a random integer from a to b including a and b
-    std_function!(functions => fn RANDOM(a: Value::Number, b: Value::Number) {
+    std_function!(functions => fn RANDOM[ctx](a: Value::Number, b: Value::Number) {
+        if a as i64 > b as i64 {
+            return Err(ctx.error(
+                1,
+                "Invalid Range",
+                format!("Make sure the upper bound `{b}` is not less than the lower bound `{a}`"),
+                "The range of RANDOM is empty",
+            ));
+        }
         let mut rng = rand::rng();
         let result = rng.random_range(a as i64..=b as i64);
 
